@@ -124,12 +124,41 @@ func runC12(c *Ctx) {
 
 	// ---- executeScanner: scanners push popped by a deferred function
 	f := ia.execScanner
-	var push *ssa.Store
-	eachInstr(f, func(ins ssa.Instruction) {
+	// the push is the store `scanners = append(scanners, …)`, in executeScanner itself or in a helper it
+	// calls (then the call of the helper is the push site)
+	isPushStore := func(ins ssa.Instruction) bool {
 		if st, ok := ins.(*ssa.Store); ok && isFieldAddr(st.Addr, ia.T, c.fld("intp.scanners")) {
 			if call, ok := st.Val.(*ssa.Call); ok {
 				if b, ok := call.Common().Value.(*ssa.Builtin); ok && b.Name() == "append" {
-					push = st
+					return true
+				}
+			}
+		}
+		return false
+	}
+	isPopStore := func(ins ssa.Instruction) bool {
+		if st, ok := ins.(*ssa.Store); ok && isFieldAddr(st.Addr, ia.T, c.fld("intp.scanners")) {
+			if sl, ok := st.Val.(*ssa.Slice); ok && sl.High != nil {
+				return true
+			}
+		}
+		return false
+	}
+	var push ssa.Instruction
+	eachInstr(f, func(ins ssa.Instruction) {
+		if isPushStore(ins) {
+			push = ins
+			return
+		}
+		if call, ok := ins.(*ssa.Call); ok {
+			if g := call.Common().StaticCallee(); g != nil && g != f && g != ia.executeOne && c.inModule(g) && len(g.Blocks) > 0 {
+				pushes, pops := false, false
+				c.eachInstrDeep(g, 2, func(i2 ssa.Instruction) {
+					pushes = pushes || isPushStore(i2)
+					pops = pops || isPopStore(i2)
+				})
+				if pushes && !pops {
+					push = ins
 				}
 			}
 		}
@@ -142,11 +171,9 @@ func runC12(c *Ctx) {
 				return
 			}
 			for _, cl := range closuresOf(d.Call.Value) {
-				eachInstr(cl, func(i2 ssa.Instruction) {
-					if st, ok := i2.(*ssa.Store); ok && isFieldAddr(st.Addr, ia.T, c.fld("intp.scanners")) {
-						if sl, ok := st.Val.(*ssa.Slice); ok && sl.High != nil {
-							okPop = true
-						}
+				c.eachInstrDeep(cl, 2, func(i2 ssa.Instruction) {
+					if isPopStore(i2) {
+						okPop = true
 					}
 				})
 			}
@@ -187,9 +214,21 @@ func runC12(c *Ctx) {
 			nSticky++
 			handled := false
 			why := ""
-			// (a) compared with io.EOF somewhere
+			// (a) compared with io.EOF somewhere.  Loads of the field from the same scanner between which
+			// nothing can have written it (no call, no store on any path between them) yield the same
+			// value: `err := s.err; if err != nil && err != io.EOF` and `if s.err != nil && s.err != io.EOF`
+			// are the same consultation.
 			var vals []ssa.Value
 			vals = append(vals, ld)
+			eachInstr(f, func(i2 ssa.Instruction) {
+				l2, ok := i2.(*ssa.UnOp)
+				if !ok || l2 == ld || l2.Op != token.MUL || !isFieldAddr(l2.X, scannerT, c.fld("scanner.err")) {
+					return
+				}
+				if sameFieldBase(ld.X, l2.X) && (unchangedBetween(ld, l2) || unchangedBetween(l2, ld)) {
+					vals = append(vals, l2)
+				}
+			})
 			for i := 0; i < len(vals); i++ {
 				for _, r := range *vals[i].Referrers() {
 					switch r := r.(type) {
@@ -206,13 +245,20 @@ func runC12(c *Ctx) {
 					break
 				}
 			}
-			// (b) dominated by a short-peek test len(x) < n
+			// (b) dominated by a short-peek test len(x) < n, where x is what a look-ahead of the scanner
+			// delivered: fewer bytes than asked for means the input really is exhausted (or broken).  The
+			// length of anything else (the look-ahead buffer itself, while bytes may still sit in the read
+			// buffer) says nothing about that.
 			for _, cd := range domConds(ld.Block()) {
 				if m, ok := asCmp(cd); ok && m.op == token.LSS {
 					if call, ok := origin(m.x).(*ssa.Call); ok {
-						if b, ok := call.Common().Value.(*ssa.Builtin); ok && b.Name() == "len" {
-							handled = true
-							why = "only after a peek came up short"
+						if b, ok := call.Common().Value.(*ssa.Builtin); ok && b.Name() == "len" && len(call.Common().Args) == 1 {
+							if pk, ok := origin(call.Common().Args[0]).(*ssa.Call); ok {
+								if g := pk.Common().StaticCallee(); g != nil && g.Signature.Recv() != nil && pointsTo(g.Signature.Recv().Type(), scannerT) {
+									handled = true
+									why = "only after a peek came up short"
+								}
+							}
 						}
 					}
 				}
@@ -301,4 +347,87 @@ func (c *Ctx) readCountRule(rule string, filter func(*ssa.Function) bool) {
 		})
 	}
 	_ = nReads
+}
+
+// sameFieldBase: two field addresses select the same field of the same object.
+func sameFieldBase(a, b ssa.Value) bool {
+	fa, ok1 := a.(*ssa.FieldAddr)
+	fb, ok2 := b.(*ssa.FieldAddr)
+	return ok1 && ok2 && fa.Field == fb.Field && origin(fa.X) == origin(fb.X)
+}
+
+// unchangedBetween: a is executed before b on every path to b, and no path from a to b contains a
+// call (other than of a builtin) or a store through a pointer: memory read at a and at b is the same.
+func unchangedBetween(a, b ssa.Instruction) bool {
+	if !dominatesInstr(a, b) {
+		return false
+	}
+	writes := func(ins ssa.Instruction) bool {
+		switch x := ins.(type) {
+		case ssa.CallInstruction:
+			if _, isB := x.Common().Value.(*ssa.Builtin); isB {
+				return false
+			}
+			return true
+		case *ssa.Store:
+			if _, local := x.Addr.(*ssa.Alloc); local {
+				return false
+			}
+			return true
+		case *ssa.MapUpdate, *ssa.Send:
+			return true
+		}
+		return false
+	}
+	if a.Block() == b.Block() {
+		for _, ins := range a.Block().Instrs[instrIndex(a)+1 : instrIndex(b)] {
+			if writes(ins) {
+				return false
+			}
+		}
+		return true
+	}
+	// blocks from which b's block is reachable without leaving the region dominated by a's block
+	canReach := map[*ssa.BasicBlock]bool{b.Block(): true}
+	for changed := true; changed; {
+		changed = false
+		for _, blk := range a.Parent().Blocks {
+			if canReach[blk] || blk == a.Block() || !a.Block().Dominates(blk) {
+				continue
+			}
+			for _, s := range blk.Succs {
+				if canReach[s] {
+					canReach[blk] = true
+					changed = true
+					break
+				}
+			}
+		}
+	}
+	for _, ins := range a.Block().Instrs[instrIndex(a)+1:] {
+		if writes(ins) {
+			return false
+		}
+	}
+	for blk := range canReach {
+		instrs := blk.Instrs
+		if blk == b.Block() {
+			// a loop through b's block back to itself would pass the whole block
+			inLoop := false
+			for _, s := range blk.Succs {
+				if canReach[s] {
+					inLoop = true
+				}
+			}
+			if !inLoop {
+				instrs = instrs[:instrIndex(b)]
+			}
+		}
+		for _, ins := range instrs {
+			if writes(ins) {
+				return false
+			}
+		}
+	}
+	return true
 }
